@@ -61,6 +61,34 @@ CHECKS = {
     },
 }
 
+CHECKS["C18"] = {
+    "harnesses": [
+        H("c18.VH_ovpn_header", {}, {}, covers=["accepted", "rejected"]),
+        H("c18.VH_ovpn_plain", {}, {}, covers=["accepted", "rejected"]),
+        H("c18.VH_ovpn_auth", {}, {}, covers=["accepted", "rejected"]),
+        H("c18.VH_ovpn_crypt", {}, {}, covers=["accepted", "rejected"]),
+        H("c18.VH_ovpn_crypt2", {}, {}, covers=["accepted", "rejected"]),
+        H("c18.VH_ovpn_wrappedkey", {}, {}, covers=["accepted", "rejected"]),
+        H("c18.VH_ovpn_plain_fields", {}, {}, covers=["accepted", "rejected"]),
+        H("c18.VH_ovpn_auth_fields", {}, {}, covers=["accepted"]),
+        H("c18.VH_wg_initiation", {}, {}, covers=["accepted", "rejected"]),
+        H("c18.VH_wg_transport", {}, {}, covers=["accepted", "rejected"]),
+        H("c18.VH_wg_initiation_fields", {}, {}, covers=["accepted"]),
+        H("c18.VH_rdp_tpkt", {}, {}, covers=["accepted", "rejected"]),
+        H("c18.VH_rdp_x224", {}, {}, covers=["accepted", "rejected"]),
+        H("c18.VH_rdp_negreq", {}, {}, covers=["accepted", "rejected"]),
+        H("c18.VH_rdp_corrinfo", {}, {}, covers=["accepted", "rejected"]),
+        H("c18.VH_rdp_token", {}, {}, covers=["accepted", "rejected"]),
+        H("c18.VH_rdp_negreq_fields", {}, {}, covers=["accepted"]),
+        H("c18.VH_winbox_auth", {"L": 44}, {"params": {"L": 300}, "unwind": 320}, covers=["accepted", "rejected"], weight=3),
+    ],
+    "level_text": "bounded model checking of every exported FromBytes/ToBytes pair over the real message sizes: for every byte string within max+2 bytes, acceptance implies a legal length and ToBytes(FromBytes(b)) == b (refuted with a fresh symbolic index, so no per-byte bound); serialise-then-parse for messages built from arbitrary field values",
+    "level_note": "binary.Read/Write on fixed-layout values are engine intrinsics (type-directed encode/decode, validated natively per run by path replay); bytes.Buffer, byte-order helpers and the repository code are executed from SSA; crypto (HMAC/AES) is not involved in the codecs' framing",
+    "assumptions": ["encoding/binary.Read/Write modelled by a type-directed intrinsic (fixed-size integers, byte arrays, structs)"],
+    "outside": ["Winbox messages longer than the harness bound (44 quick / 300 thorough)", "FromBytesCrypt/ToBytesCrypt (encrypted sub-structures) and key-file parsers"],
+    "bounds": {"quick": "real sizes: openvpn 1/14/38-86/54/343-1077/290-1024 bytes (+2), wireguard 148/32+, rdp 4/7/8/36/11+, winbox <= 44", "thorough": "winbox <= 300 (two chunks)"},
+}
+
 NOT_APPLICABLE = {
     "C15": "Caddyfile->JSON adaptation and JSON round-trip run through the Caddyfile lexer, encoding/json reflection and Caddy's module loader over an unbounded configuration grammar; this cannot be encoded by a hand-written go/ssa symbolic executor (reflection refused, inputs are programs of a grammar, not bounded bytes/integers)",
 }
